@@ -274,6 +274,7 @@ pub struct Fix {
     pub tpe_entities: Option<PartialEntities>,
     pub cfg: Config,
     pub cfg_narrow: Config,
+    pub schema_json: J,
 }
 
 fn uid(s: &str) -> Result<EntityUid, String> {
@@ -300,6 +301,7 @@ impl Fix {
         )
         .ok();
         let tpe_entities = PartialEntities::from_concrete(entities.clone(), &schema).ok();
+        let schema_json = frag.clone().to_json_value().map_err(|e| format!("fixture schema json: {e}"))?;
         Ok(Fix {
             validator: Validator::new(schema.clone()),
             schema,
@@ -320,6 +322,7 @@ impl Fix {
             tpe_entities,
             cfg: Config::default(),
             cfg_narrow: Config { line_width: 12, indent_width: 5 },
+            schema_json,
         })
     }
 }
@@ -460,7 +463,7 @@ pub fn run_case(run: &mut Run, fx: &Fix, bytes: &[u8], route: u64) {
     let s = String::from_utf8_lossy(bytes);
     let s: &str = &s;
     if route & R_POLICY != 0 {
-        ep_policy_text(run, fx, s);
+        ep_policy_text(run, fx, s, route & R_POLICY_FFI != 0);
     }
     if route & R_EXPR != 0 {
         ep_expr_text(run, fx, s);
@@ -469,7 +472,7 @@ pub fn run_case(run: &mut Run, fx: &Fix, bytes: &[u8], route: u64) {
         ep_name_text(run, fx, s);
     }
     if route & R_CSCHEMA != 0 {
-        ep_cschema_text(run, fx, s);
+        ep_cschema_text(run, fx, s, route & R_CSCHEMA_FFI != 0);
     }
     if route & R_JSON != 0 {
         ep_json(run, fx, s, route);
@@ -485,13 +488,23 @@ pub fn run_case(run: &mut Run, fx: &Fix, bytes: &[u8], route: u64) {
 // ---------------------------------------------------------------------------------------------
 // Cedar policy text
 // ---------------------------------------------------------------------------------------------
-fn ep_policy_text(run: &mut Run, fx: &Fix, s: &str) {
-    ep!(run, "PolicySet::from_str", PolicySet::from_str(s), ps => pipe_pset(run, fx, &ps, true));
-    ep!(run, "Policy::parse", Policy::parse(Some(PolicyId::new("pid")), s), p => pipe_policy(run, fx, &p, true));
-    ep!(run, "Policy::from_str", Policy::from_str(s), p => pipe_policy(run, fx, &p, false));
-    ep!(run, "Template::parse", Template::parse(Some(PolicyId::new("tid")), s), t => pipe_template(run, fx, &t, true));
-    ep!(run, "Template::from_str", Template::from_str(s), t => pipe_template(run, fx, &t, false));
-    format_text(run, fx, s);
+fn ep_policy_text(run: &mut Run, fx: &Fix, s: &str, full: bool) {
+    // the policy-set pipeline (print, convert, link, validate, authorize, format, protobuf) runs
+    // on the parsed set; the single policy / template objects get their own conversions
+    let mut set_ok = false;
+    ep!(run, "PolicySet::from_str", PolicySet::from_str(s), ps => { set_ok = true; pipe_pset(run, fx, &ps, true) });
+    ep!(run, "Policy::parse", Policy::parse(Some(PolicyId::new("pid")), s), p => pipe_policy(run, fx, &p, false));
+    ep!(run, "Template::parse", Template::parse(Some(PolicyId::new("tid")), s), t => pipe_template(run, fx, &t, false));
+    // the formatter parses with the same parser first: on unparsable text it is only run in the
+    // `full` route
+    if set_ok || full {
+        format_text(run, fx, s);
+    }
+    if !full {
+        return;
+    }
+    ep!(run, "Policy::from_str", Policy::from_str(s), p => pipe_policy(run, fx, &p, true));
+    ep!(run, "Template::from_str", Template::from_str(s), t => pipe_template(run, fx, &t, true));
     // FFI wrappers taking policy text
     run.call("ffi::policy_set_text_to_parts", || format!("{:?}", ffi::policy_set_text_to_parts(s)).len());
     run.call("ffi::policy_to_json(text)", || format!("{:?}", ffi::policy_to_json(ffi::Policy::Cedar(s.to_string()))).len());
@@ -504,7 +517,7 @@ fn ep_policy_text(run: &mut Run, fx: &Fix, s: &str) {
         "principal": {"type": "User", "id": "a"}, "action": {"type": "Action", "id": "view"}, "resource": {"type": "Doc", "id": "d"},
         "context": {"n": 1}, "policies": {"staticPolicies": s}, "entities": []
     })), v => v.is_object());
-    epp!(run, "ffi::validate_json(text)", ffi::validate_json(json!({"schema": SCHEMA_TEXT, "policies": {"staticPolicies": {"p": s}, "templates": {"t": s}}})), v => v.is_object());
+    epp!(run, "ffi::validate_json(text)", ffi::validate_json(json!({"schema": fx.schema_json.clone(), "policies": {"staticPolicies": {"p": s}, "templates": {"t": s}}})), v => v.is_object());
 }
 
 fn format_text(run: &mut Run, fx: &Fix, s: &str) {
@@ -610,7 +623,7 @@ pub fn pipe_pset(run: &mut Run, fx: &Fix, ps: &PolicySet, deep: bool) {
             render_validation(run, &r);
         }
     }
-    for (mode, lvl, label) in [(ValidationMode::Strict, 0u32, "Validator::validate_with_level(strict,0)"), (ValidationMode::Strict, 1, "Validator::validate_with_level(strict,1)"), (ValidationMode::Permissive, 2, "Validator::validate_with_level(permissive,2)")] {
+    for (mode, lvl, label) in [(ValidationMode::Strict, 0u32, "Validator::validate_with_level(strict,0)"), (ValidationMode::Permissive, 1, "Validator::validate_with_level(permissive,1)")] {
         if let Some(r) = run.call(label, || fx.validator.validate_with_level(ps, mode, lvl)) {
             render_validation(run, &r);
         }
@@ -876,12 +889,15 @@ pub fn pipe_fragment(run: &mut Run, fx: &Fix, frag: &SchemaFragment) {
     down!(run, "Schema::from_schema_fragments", Schema::from_schema_fragments([frag.clone(), fx.frag.clone()]), s => { let _ = s; });
 }
 
-fn ep_cschema_text(run: &mut Run, fx: &Fix, s: &str) {
+fn ep_cschema_text(run: &mut Run, fx: &Fix, s: &str, full: bool) {
     ep!(run, "Schema::from_cedarschema_str", Schema::from_cedarschema_str(s).map(|(x, w)| (x, w.collect::<Vec<_>>())), (schema, ws) => { render_schema_warnings(run, ws); pipe_schema(run, fx, &schema); });
     ep!(run, "SchemaFragment::from_cedarschema_str", SchemaFragment::from_cedarschema_str(s).map(|(x, w)| (x, w.collect::<Vec<_>>())), (frag, ws) => { render_schema_warnings(run, ws); pipe_fragment(run, fx, &frag); });
+    ep!(run, "schema_str_to_json_with_resolved_types", schema_str_to_json_with_resolved_types(s), (v, ws) => { let _ = v; render_schema_warnings(run, ws); });
+    if !full {
+        return;
+    }
     ep!(run, "Schema::from_str", Schema::from_str(s), x => { let _ = x; });
     ep!(run, "SchemaFragment::from_str", SchemaFragment::from_str(s), x => { let _ = x; });
-    ep!(run, "schema_str_to_json_with_resolved_types", schema_str_to_json_with_resolved_types(s), (v, ws) => { let _ = v; render_schema_warnings(run, ws); });
     run.call("ffi::check_parse_schema(text)", || format!("{:?}", ffi::check_parse_schema(ffi::Schema::Cedar(s.to_string()))).len());
     run.call("ffi::schema_to_json(text)", || format!("{:?}", ffi::schema_to_json(ffi::Schema::Cedar(s.to_string()))).len());
     run.call("ffi::schema_to_text(text)", || format!("{:?}", ffi::schema_to_text(ffi::Schema::Cedar(s.to_string()))).len());
